@@ -198,6 +198,12 @@ func (c *compiler) evalAssignExpression(node *ast.AssignExpression) (interface{}
 		return nil, err
 	}
 
+	if node.Name.Callee != nil {
+		// p.Name = v names a field, not a variable: assigning to the variable called
+		// like the last segment would silently change something else
+		return nil, fmt.Errorf("cannot assign to %s: only variables and indexed elements can be assigned to", node.Name.String())
+	}
+
 	n := node.Name.Value
 	if !c.ctx.Has(n) {
 		return nil, &ErrUnknownIdentifier{
